@@ -22,7 +22,7 @@ FLOORS = {'quick': {'view-ctrlpts': 800, 'view-weights': 800, 'view-ctrlptsw': 8
                     'convert': 100, 'grid-weight': 150},
           'thorough': {'view-ctrlpts': 8000, 'view-ctrlptsw': 8000, 'convert': 1000}}
 MANDATORY_TAGS = ['pdim1', 'pdim2', 'pdim3', 'op:restructure', 'op:ctrlpts', 'op:weights', 'op:ctrlptsw', 'op:set_ctrlpts', 'op:scaleW',
-                  'read-then-write', 'grid', 'convert', 'files:non-square', 'write-back-kept-weights', 'write-back-kept-ctrlpts', 'convert:unnormalized', 'grid:bumps-after-read', 'resize:ctrlpts-other-size', 'resize:weights-wrong-length', 'read-modify-in-place-write:weights']
+                  'read-then-write', 'grid', 'convert', 'files:non-square', 'write-back-kept-weights', 'write-back-kept-ctrlpts', 'convert:unnormalized', 'grid:bumps-after-read', 'resize:ctrlpts-other-size', 'resize:weights-wrong-length', 'read-modify-in-place-write:weights', 'read-modify-write:weights', 'read-modify-write:ctrlpts']
 TECHNIQUE = ("runtime monitoring: shadow-model oracle (P, W) compared with all three views after every step of seeded "
              "setter/getter histories; exact-product oracles on the helper conversions; reference-model evaluation for "
              "conversions and weight scaling")
@@ -87,8 +87,30 @@ def check_history(case, ctx):
         views_ok(ctx, o, P, W, 'construction')
     last_read = False
     for step in range(case['steps']):
-        op = rng.choice(['ctrlpts', 'weights', 'ctrlptsw', 'set_ctrlpts', 'scaleW', 'read', 'read', 'restructure', 'resize'])
+        op = rng.choice(['ctrlpts', 'weights', 'ctrlptsw', 'set_ctrlpts', 'scaleW', 'read', 'read', 'restructure', 'resize', 'rmw'])
         ctx.tag('op:' + op)
+        if op == 'rmw':
+            # read - modify in place - write, with nothing in between: w = shape.weights; w[k] = x; shape.weights = w (the list written is
+            # the very list the getter handed out, possibly the shape's own cached view)
+            last_read = False
+            which = rng.choice(['weights', 'weights', 'ctrlpts'])
+            lst = getattr(o, which)
+            if len(lst) != n:
+                continue
+            kk = rng.randrange(n)
+            if which == 'weights':
+                lst[kk] = rng.uniform(0.2, 5)
+                W = list(lst)
+            else:
+                lst[kk] = [rng.uniform(-10, 10) for _ in range(dim)]
+                P = [list(q_) for q_ in lst]
+            setattr(o, which, lst)
+            ctx.tag('read-modify-write:' + which)
+            kept.clear()
+            writes += 1
+            if not views_ok(ctx, o, P, W, 'step %d (read %s, modify entry %d in place, write the same list back)' % (step, which, kk)):
+                return
+            continue
         if op == 'resize':
             if pdim == 3:
                 continue
